@@ -79,7 +79,7 @@ func (r *Recorder) NegBlock(ctx context.Context, spec *common.Spec, epc *common.
 		if !ok {
 			return nil, false
 		}
-		abs, err := absstate.Project(spec, w)
+		abs, _, err := absstate.ProjectLenient(spec, w)
 		if err != nil {
 			return nil, false
 		}
@@ -189,7 +189,16 @@ func (r *Recorder) transition(ctx context.Context, spec *common.Spec, epc *commo
 		return err
 	}
 	ev.Clamped = bctx.Clamped
-	if ev.Accepted || kind != "Neg" {
+	if kind == "Neg" {
+		if ev.Accepted {
+			var cl bool
+			ev.Post, cl, err = absstate.ProjectLenient(spec, state)
+			if err != nil {
+				return err
+			}
+			ev.Clamped = ev.Clamped || cl
+		}
+	} else {
 		ev.Post, err = absstate.Project(spec, state)
 		if err != nil {
 			return err
